@@ -136,6 +136,19 @@ func judgeTransition(search string, variant int, hist []regionx.Op, pre []byte, 
 		fs, w := accs[seg].j.Judge(img, preModel, op.X, op.Z, out.Written, coords, point)
 		accs[seg].wo[w]++
 		accs[seg].shapes[point]++
+		if point == "torn-header-location" {
+			// informative only: a torn location word can make the written chunk's entry point into a
+			// live neighbour's run. Reading the neighbour is unaffected (checked above); what a LATER
+			// write through that entry would do is outside the statement.
+			if _, probs := refanvil.Parse(img, refanvil.Options{}); len(probs) > 0 {
+				for _, p := range probs {
+					if p.Kind == refanvil.Overlap {
+						accs[seg].shapes["(info) torn location word makes the written chunk's entry overlap a live chunk: unspecified"]++
+						break
+					}
+				}
+			}
+		}
 		if len(fs) > 0 {
 			record(search, variant, hist, cp, out.Writes, fs)
 		}
@@ -164,6 +177,10 @@ func judgeTransition(search string, variant int, hist []regionx.Op, pre []byte, 
 	}
 	rep.Unspec(wo[regionx.WrittenTornMix] + wo[regionx.WrittenStale] + wo[regionx.WrittenPanic])
 	for k, v := range shapes {
+		if k[0] == '(' {
+			bump(k, v)
+			continue
+		}
 		bump("images:"+k, v)
 	}
 }
@@ -181,7 +198,11 @@ func hook(search string) func(t *regionx.Transition) {
 		if t.Op.K != "W" {
 			return
 		}
-		bump("write_transitions:"+t.Shape, 1)
+		if t.Op.Size == 0 {
+			bump("write_transitions:W-zero-length", 1) // still a chunk write: the OTHER chunks must survive its crash points
+		} else {
+			bump("write_transitions:"+t.Shape, 1)
+		}
 		if t.E.Dead == "" && t.Shape != "W-same-count" && t.Op.Size <= regionx.MaxPayload {
 			offs := t.E.Tables().Offsets
 			if regionx.AllocatedIntoGap(&offs, t.Op.X, t.Op.Z) {
@@ -228,6 +249,12 @@ func main() {
 	rep = engine.NewReport("C15")
 	rep.Rule = "for every WriteSector transition (state, coordinate, size) of the explicit-state BFS graph over region histories: every crash image = pre-state + a prefix of the recorded physical writes, the write in flight cut at every 512-byte boundary (absolute and relative), at every byte if it has <= 8 bytes, else at its first and last byte. distinct = (state, operation, crash point) triples, each built once by construction; non-trivial = images of transitions whose pre-state holds at least one OTHER chunk (something that could be damaged)"
 	regionx.InstallClock()
+	regionx.StartWatchdog(20*time.Second, func(variant int, hist []regionx.Op) {
+		// the crash images of this call cannot be built at all: it never returns
+		record("watchdog", variant, hist, regionx.CrashPoint{}, nil, []regionx.Finding{{Class: "crash/" + hist[len(hist)-1].K + "-call/non-termination-while-executing-the-history", Detail: "a single call ran for more than 20 s"}})
+		rep.Cap("aborted by the non-termination watchdog")
+		rep.Finish()
+	})
 	if pf := os.Getenv("VERIF_CPUPROFILE"); pf != "" {
 		f, _ := os.Create(pf)
 		pprof.StartCPUProfile(f)
